@@ -343,7 +343,15 @@ def classify(ur):
             ur.undecided.append('vacuity: precondition of %s is unsatisfiable (twin %s verified)' % (t[:-9], t))
 
 
+# a failed SAFETY condition (the code would panic, overflow or not terminate) is relevant to the "returns normally"
+# property of the unit whatever the tags / properties of the function say
+PANIC_KINDS = {'arithmetic-overflow', 'division-by-zero', 'shift-overflow', 'index', 'assertion', 'unreachable', 'decreases', 'termination'}
+SAFETY_PROP = {'SEMA': 'C03', 'ASTX': 'C03', 'SYM': 'C03', 'TYPES': 'C03', 'LEX': 'C01', 'PARSER': 'C01', 'SHORT': 'C01', 'SYNX': 'C01'}
+
+
 def relevant(rec, prop, unit):
+    if rec['kind'] in PANIC_KINDS and SAFETY_PROP.get(unit.name) == prop:
+        return True
     if rec['tags']:
         return prop in rec['tags']
     if rec['fn_props']:
